@@ -167,7 +167,18 @@ class UniformShapeOperations(OperationsBlock):
             x.dtype, (dtypes.Nullable, dtypes.CoreType)
         ):
             raise TypeError("where condition is nullable, but both outputs are not")
-        if condition.to_numpy() is not None and condition.dtype == dtypes.bool:
+        # The shortcuts below must not change the result: they only apply when the
+        # broadcast shape of the three operands is statically known to be the shape of
+        # the operand that is returned.
+        x_shape, y_shape = x.shape, y.shape
+        same_static_shape = x_shape == y_shape and all(
+            isinstance(dim, int) for dim in x_shape
+        )
+        if (
+            condition.to_numpy() is not None
+            and condition.dtype == dtypes.bool
+            and same_static_shape
+        ):
             if (
                 condition.to_numpy().size == 1
                 and condition.to_numpy().ndim <= x.ndim
@@ -180,20 +191,29 @@ class UniformShapeOperations(OperationsBlock):
                 and not condition.to_numpy().item()
             ):
                 return y.copy()
-        if x.dtype == y.dtype and x.to_numpy() is not None and y.to_numpy() is not None:
+        if (
+            x.dtype == y.dtype
+            and x.to_numpy() is not None
+            and y.to_numpy() is not None
+            and condition.dtype == dtypes.bool
+        ):
+            condition_shape = condition.shape
+            if not all(isinstance(dim, int) for dim in condition_shape):
+                # FIXME: the shape of a lazy condition is not taken into account
+                condition_shape = ()
+            target_shape = np.broadcast_shapes(condition_shape, x_shape, y_shape)
             if isinstance(x.to_numpy(), np.ma.MaskedArray):
                 if np.ma.allequal(x.to_numpy(), y.to_numpy(), fill_value=False):
                     return ndx.asarray(
-                        np.broadcast_arrays(x.to_numpy(), y.to_numpy(), subok=True)[0]
+                        np.broadcast_to(x.to_numpy(), target_shape, subok=True)
                     )
             else:
                 cond = np.equal(x.to_numpy(), y.to_numpy())
                 if isinstance(x.dtype, ndx.Floating):
+                    cond &= np.signbit(x.to_numpy()) == np.signbit(y.to_numpy())
                     cond |= np.isnan(x.to_numpy()) & np.isnan(y.to_numpy())
                 if cond.all():
-                    return ndx.asarray(
-                        np.broadcast_arrays(x.to_numpy(), y.to_numpy())[0]
-                    )
+                    return ndx.asarray(np.broadcast_to(x.to_numpy(), target_shape))
         condition_values = (
             condition.values if condition.dtype == ndx.nbool else condition
         )
